@@ -477,6 +477,7 @@ type kpc =
 | KArm
 | KHandle
 | KGon
+| KReg
 | KStore
 | KChk
 | KStake
@@ -491,8 +492,8 @@ type kpc =
 | KCchk
 | KC1
 | KC2
-| KC3
 | KC3s
+| KC3
 | KC4
 | KGoff
 
@@ -1073,13 +1074,16 @@ let after_run = function
 | true -> KIdle
 | false -> KNest
 
-(** val setco_ahead : kpc -> bool **)
+(** val setco_ahead : bool -> kpc -> bool **)
 
-let setco_ahead = function
-| KChk -> true
-| KSload -> true
-| KSetco -> true
-| _ -> false
+let setco_ahead fixF31 k =
+  if fixF31
+  then false
+  else (match k with
+        | KChk -> true
+        | KSload -> true
+        | KSetco -> true
+        | _ -> false)
 
 (** val ustep : st -> st option **)
 
@@ -1142,9 +1146,9 @@ let ustep s =
               (set_para None (set_lastv (Some (verdict_of s.para)) s)))
         | _ -> None)
 
-(** val kstep : bool -> bool -> st -> st option **)
+(** val kstep : bool -> bool -> bool -> st -> st option **)
 
-let kstep fixF8 fixF12 s =
+let kstep fixF8 fixF12 fixF31 s =
   match s.kp with
   | KIdle -> None
   | KDur ->
@@ -1168,7 +1172,8 @@ let kstep fixF8 fixF12 s =
                  (set_tm (upd s.tm s.ntm TmArmed) s)))))
      | None -> None)
   | KHandle -> Some (set_kp KGon s)
-  | KGon -> Some (set_kp KStore (set_wk true s))
+  | KGon -> Some (set_kp (if fixF31 then KReg else KStore) (set_wk true s))
+  | KReg -> Some (set_kp KStore (set_cco CThis s))
   | KStore -> Some (set_kp (if fixF8 then KChk else KSload) (set_slot true s))
   | KChk ->
     Some
@@ -1188,7 +1193,10 @@ let kstep fixF8 fixF12 s =
       (set_kp (after_run fixF12)
         (set_nested (negb fixF12)
           (set_up UYb (set_running true (set_para (Some PTimeout) s)))))
-  | KSload -> Some (set_kp (if s.pstate then KFtake else KSetco) s)
+  | KSload ->
+    Some
+      (set_kp (if s.pstate then KFtake else if fixF31 then KCchk else KSetco)
+        s)
   | KFtake ->
     if s.slot
     then Some
@@ -1202,24 +1210,26 @@ let kstep fixF8 fixF12 s =
         (set_nested (negb fixF12) (set_up UYb (set_running true s))))
   | KNest -> if s.nested then None else Some (set_kp KGoff s)
   | KSetco -> Some (set_kp KCchk (set_cco CThis s))
-  | KCchk -> Some (set_kp (if canceled s then KC1 else KGoff) s)
+  | KCchk ->
+    Some
+      (set_kp (if canceled s then if fixF31 then KC3 else KC1 else KGoff) s)
   | KC1 -> Some (set_kp KC2 (set_cbit true s))
   | KC2 ->
     (match s.cco with
      | CNone -> Some (set_kp KGoff s)
      | CThis -> Some (set_kp KC3 (set_cco CNone s))
      | CStale -> Some (set_kp KC3s (set_cco CNone s)))
+  | KC3s -> Some (set_kp KGoff s)
   | KC3 ->
     if s.slot
     then Some (set_kp KC4 (set_wsrc WCn (set_slot false s)))
     else Some (set_kp KGoff s)
-  | KC3s -> Some (set_kp KGoff s)
   | KC4 -> Some (set_kp KGoff (set_rq (S s.rq) (set_para (Some PCanceled) s)))
   | KGoff -> Some (set_kp KIdle (set_wk false s))
 
-(** val step : bool -> bool -> st -> action -> st option **)
+(** val step : bool -> bool -> bool -> st -> action -> st option **)
 
-let step fixF8 fixF12 s = function
+let step fixF8 fixF12 fixF31 s = function
 | APark d ->
   (match s.up with
    | UIdle ->
@@ -1276,7 +1286,7 @@ let step fixF8 fixF12 s = function
                                   (set_kdur None
                                     (set_kp KIdle
                                       (set_oldk
-                                        (if setco_ahead s.kp
+                                        (if setco_ahead fixF31 s.kp
                                          then S s.oldk
                                          else s.oldk)
                                         (set_cco
@@ -1291,7 +1301,7 @@ let step fixF8 fixF12 s = function
                                                     (set_pstate false s)))))))))))))))))))))
      else None
    | _ -> None)
-| AK -> kstep fixF8 fixF12 s
+| AK -> kstep fixF8 fixF12 fixF31 s
 | AUnSwap i ->
   (match s.un i with
    | NIdle ->
@@ -1409,13 +1419,13 @@ let step fixF8 fixF12 s = function
   then if s.wk then Some s else Some (set_nested false (set_dropping false s))
   else None
 
-(** val run : bool -> bool -> st -> action list -> st option **)
+(** val run : bool -> bool -> bool -> st -> action list -> st option **)
 
-let rec run fixF8 fixF12 s = function
+let rec run fixF8 fixF12 fixF31 s = function
 | [] -> Some s
 | a :: r ->
-  (match step fixF8 fixF12 s a with
-   | Some s' -> run fixF8 fixF12 s' r
+  (match step fixF8 fixF12 fixF31 s a with
+   | Some s' -> run fixF8 fixF12 fixF31 s' r
    | None -> None)
 
 (** val kholds : kpc -> bool **)
@@ -1426,6 +1436,7 @@ let kholds = function
 | KArm -> true
 | KHandle -> true
 | KGon -> true
+| KReg -> true
 | KStore -> true
 | KSgoff got -> got
 | KSrun -> true
@@ -1506,7 +1517,7 @@ let tpstep t = function
 (** val mstep : st -> action -> st option **)
 
 let mstep =
-  step true true
+  step true true true
 
 type aux = { meco : z; uth : z; kth : z; oldkth : z; gen : z;
              tgts : (z * z) list; oslot : z; tlog : z; away : bool;
@@ -1907,14 +1918,7 @@ let plan = function
                                     (match p5 with
                                      | XH ->
                                        if isk a x0
-                                       then (match s0.kp with
-                                             | KC2 ->
-                                               seq
-                                                 (guard
-                                                   (eqb (zb val0)
-                                                     (cco_some s0.cco)))
-                                                 (act AK)
-                                             | _ -> fail)
+                                       then fail
                                        else if negb (Z.eqb x0.meco Z0)
                                             then (match s0.cn (n a) with
                                                   | CTakeCo ->
@@ -1980,14 +1984,9 @@ let plan = function
                                      | XH ->
                                        if isk a x0
                                        then (match s0.kp with
-                                             | KSetco -> act AK
+                                             | KReg -> act AK
                                              | _ -> fail)
-                                       else if isoldk a x0
-                                            then (match s0.oldk with
-                                                  | O ->
-                                                    setax (set_desync true)
-                                                  | S _ -> act AStaleSetco)
-                                            else ret
+                                       else if isoldk a x0 then fail else ret
                                      | _ -> fail)
                                   | XH ->
                                     if isk a x0
@@ -2175,9 +2174,7 @@ let plan = function
                                      | XH ->
                                        seq (flush a)
                                          (if isk a x0
-                                          then (match s0.kp with
-                                                | KC1 -> act AK
-                                                | _ -> fail)
+                                          then fail
                                           else if negb (Z.eqb x0.meco Z0)
                                                then withs (fun s _ ->
                                                       match s.cn (n a) with
@@ -2280,16 +2277,7 @@ let plan = function
                                     (match p5 with
                                      | XH ->
                                        if isk a x0
-                                       then (match s0.kp with
-                                             | KC3 ->
-                                               seq
-                                                 (guard
-                                                   (eqb (zb val0) s0.slot))
-                                                 (act AK)
-                                             | KC3s ->
-                                               seq (guard (negb (zb val0)))
-                                                 (act AK)
-                                             | _ -> fail)
+                                       then fail
                                        else if negb (Z.eqb x0.meco Z0)
                                             then (match s0.cn (n a) with
                                                   | CTake ->
@@ -2335,6 +2323,22 @@ let plan = function
                                          else ret)
                                | XO p4 ->
                                  (match p4 with
+                                  | XI _ -> fail
+                                  | XO p5 ->
+                                    (match p5 with
+                                     | XH ->
+                                       if isk a x0
+                                       then (match s0.kp with
+                                             | KC3 ->
+                                               seq
+                                                 (guard
+                                                   (eqb (zb val0) s0.slot))
+                                                 (act AK)
+                                             | _ -> fail)
+                                       else if isoldk a x0
+                                            then guard (negb (zb val0))
+                                            else ret
+                                     | _ -> fail)
                                   | XH ->
                                     if isu a x0
                                     then (match s0.up with
@@ -2349,8 +2353,7 @@ let plan = function
                                                 (eqb (zb val0) s0.pstate))
                                               (act AU)
                                           | _ -> fail)
-                                    else ret
-                                  | _ -> fail)
+                                    else ret)
                                | XH ->
                                  if (&&) (Z.eqb obj x0.meco)
                                       (negb (Z.eqb x0.meco Z0))
@@ -2491,7 +2494,7 @@ let accept_ev x e =
   then Some x
   else (match plan e { cs = x.ms; acts = []; ax = x.xs } with
         | Some p0 ->
-          (match run true true x.ms (rev p0.acts) with
+          (match run true true true x.ms (rev p0.acts) with
            | Some s' -> Some { ms = s'; xs = p0.ax }
            | None -> None)
         | None -> None)
